@@ -26,22 +26,24 @@ PermsOf(n) == {pi \in [1..n -> 1..n] : \A i, j \in 1..n : pi[i] = pi[j] => i = j
 (* A labelled value is                                                      *)
 (*   [val  : a term (sequence of tokens) naming an abstract dense array     *)
 (*           whose axes are identified by axis ids,                         *)
-(*    at   : label -> axis id   (which axis of `val` each label names),     *)
+(*    at   : set of <<label, axis id>> (which axis of `val` each label     *)
+(*           names),                                                        *)
 (*    tags : set, left : set of labels]                                     *)
 (* Nothing in it records a storage order: two stored tensors with the same  *)
 (* labelled value are the same labelled object.                             *)
 
 LabelledValue(term, inds, lay, tags, left) ==
-  [val |-> term, at |-> [x \in Range(inds) |-> lay[Pos(inds, x)]], tags |-> tags, left |-> left]
+  [val |-> term, at |-> {<<inds[k], lay[k]>> : k \in DOMAIN inds}, tags |-> tags, left |-> left]
+LabelsIn(v)  == {p[1] : p \in v.at}
+AxisOf(v, x) == (CHOOSE p \in v.at : p[1] = x)[2]
 
 \* the abstract methods of the model, as functions of the labelled value only
 RefScale(v)      == [v EXCEPT !.val = Append(@, "s"), !.left = {}]
-RefReduce(v, x)  == [val |-> v.val \o <<"sum", v.at[x]>>,
-                     at |-> [y \in DOMAIN v.at \ {x} |-> v.at[y]], tags |-> v.tags, left |-> {}]
+RefReduce(v, x)  == [val |-> v.val \o <<"sum", AxisOf(v, x)>>,
+                     at |-> {p \in v.at : p[1] # x}, tags |-> v.tags, left |-> {}]
 RefRelabel(v, x, y) ==
-  IF x \notin DOMAIN v.at THEN v
-  ELSE [v EXCEPT !.at = [z \in (DOMAIN v.at \ {x}) \cup {y} |-> IF z = y THEN v.at[x] ELSE v.at[z]],
-                 !.left = {IF z = x THEN y ELSE z : z \in v.left}]
+  [v EXCEPT !.at = {IF p[1] = x THEN <<y, p[2]>> ELSE p : p \in @},
+            !.left = {IF z = x THEN y ELSE z : z \in @}]
 RefRetag(v, g)   == [v EXCEPT !.tags = @ \cup {g}]
 RefTranspose(v)  == v                                 \* a change of storage order is not a change of value
 
@@ -54,8 +56,8 @@ RefApplyT(f, arg, v) ==
 
 \* elementwise binary operator on two labelled values with the same label set: aligned by label
 RefBinaryT(op, order, v, w) ==
-  LET labs == SelectSeq(order, LAMBDA x : x \in DOMAIN v.at)
-      match == [k \in 1..(2 * Len(labs)) |-> IF k % 2 = 1 THEN v.at[labs[(k + 1) \div 2]] ELSE w.at[labs[k \div 2]]]
+  LET labs == SelectSeq(order, LAMBDA x : x \in LabelsIn(v))
+      match == [k \in 1..(2 * Len(labs)) |-> IF k % 2 = 1 THEN AxisOf(v, labs[(k + 1) \div 2]) ELSE AxisOf(w, labs[k \div 2])]
   IN  [val |-> <<"(">> \o v.val \o <<op>> \o w.val \o <<"|">> \o match \o <<")">>,
        at |-> v.at, tags |-> v.tags \cup w.tags, left |-> {}]
 
@@ -87,7 +89,7 @@ RefCombine(nv, nw) == [ts |-> nv.ts \cup nw.ts, exp |-> nv.exp + nw.exp]
 (*  randomised, docself, hasinpl : flags of the recipe                     *)
 
 Untouched(p)     == p.before = p.after
-AllUntouched(ps) == \A k \in DOMAIN ps : Untouched(ps[k])
+AllUntouched(ps) == \A p \in Range(ps) : Untouched(p)
 
 \* two result observations denote the same labelled object (b.dq is the distance of b to a)
 Agree(a, b) == /\ a.exc = b.exc
@@ -100,9 +102,9 @@ PlainIsInplaceOnCopy(r) == r.hasinpl => Agree(r.plain, r.inpl)
 \* the in-place spelling on a copy never reaches the original through the arrays they share
 CopyIsolated(r)     == r.hasinpl => (Untouched(r.inpl.orig) /\ AllUntouched(r.inpl.arrays))
 InplaceReturnsSelf(r) == (r.hasinpl /\ r.docself /\ r.inpl.exc = "") => r.inpl.self
-PermInvariant(r)    == \A k \in DOMAIN r.perm :
-                          /\ r.perm[k].same_in              \* the permuted receiver has the same labelled content
-                          /\ r.randomised \/ Agree(r.plain, r.perm[k])
+PermInvariant(r)    == \A p \in Range(r.perm) :
+                          /\ p.same_in                      \* the permuted receiver has the same labelled content
+                          /\ r.randomised \/ Agree(r.plain, p)
 
 CallClauses(r) ==
   << <<"PlainPure", PlainPure(r)>>,
